@@ -47,6 +47,8 @@ type filterSyms struct {
 	// maskOff: the table is indexed by prefix length minus one (0: 32 entries, entry i is the /(i+1) mask) or by the
 	// prefix length itself (1: 33 entries, entry 0 unused and zero, entry n is the /n mask)
 	maskOff int64
+	// listIsSlice: the list is a slice field grown by append; there is no separate fill index
+	listIsSlice bool
 }
 
 // affine: v as base + k (k constant).
@@ -180,6 +182,10 @@ func (s *filterSyms) isListBase(v ssa.Value) bool {
 		return sx.FieldOf(x) == s.ipList
 	case *ssa.Slice:
 		return s.isListBase(x.X)
+	case *ssa.UnOp: // the slice value of a list kept as a slice
+		if s.listIsSlice && x.Op == token.MUL {
+			return s.isListBase(x.X)
+		}
 	}
 	return false
 }
@@ -427,6 +433,12 @@ func runC11(p *core.Prog, r *core.Report) {
 			} else {
 				syms.ipList = g
 			}
+		case *types.Slice:
+			// the list kept as a slice grown by append (its length is the fill index)
+			if _, isPair := t.Elem().Underlying().(*types.Array); isPair {
+				syms.ipList = g
+				syms.listIsSlice = true
+			}
 		case *types.Basic:
 			if t.Kind() == types.Int {
 				syms.index = g
@@ -435,7 +447,7 @@ func runC11(p *core.Prog, r *core.Report) {
 			}
 		}
 	}
-	if (syms.masks == nil && tableName != "") || syms.ipList == nil || syms.ipMaps == nil || syms.index == nil || syms.mode == nil {
+	if (syms.masks == nil && tableName != "") || syms.ipList == nil || syms.ipMaps == nil || (syms.index == nil && !syms.listIsSlice) || syms.mode == nil {
 		r.Fail("C11-R2", "anchors", "-", "cannot identify list / maps / index / mode fields of IPv4Filter by type")
 		return
 	}
@@ -539,6 +551,38 @@ func runC11(p *core.Prog, r *core.Report) {
 					}
 				}
 			case *ssa.Store:
+				// the list as a slice: `f.ipList = append(f.ipList, pair)` fills the next slot and extends the list at once
+				if fa, isF := x.Addr.(*ssa.FieldAddr); isF && syms.listIsSlice && sx.FieldOf(fa) == syms.ipList {
+					if sx.IsFreshObject(fa.X) {
+						return // the constructor's make
+					}
+					n++
+					c := fmt.Sprintf("list append #%d in %s", n, fnName(fn))
+					ap, isAp := x.Val.(*ssa.Call)
+					if !isAp || !isBuiltin(ap, "append") || !syms.isListBase(ap.Call.Args[0]) {
+						r.Fail("C11-R2", c, p.Pos(in.Pos()), "the list is assigned "+sx.ValPath(x.Val)+", not an append to itself")
+						return
+					}
+					elems := appendElems(ap)
+					if len(elems) != 1 {
+						r.Fail("C11-R2", c, p.Pos(in.Pos()), "cannot identify the single appended entry")
+						return
+					}
+					k0, k1, kind := syms.pairOf(elems[0])
+					_, e, isKey := ssa.Value(nil), ssa.Value(nil), false
+					if kind == "pair" {
+						_, e, isKey = syms.maskKey(k0)
+					}
+					if isKey && syms.maskIsLen(e, k1) {
+						r.OK("C11-R2", c, p.Pos(in.Pos()), "appends (addr & mask[n-1], n)")
+						if fn == add {
+							addInserts = append(addInserts, in)
+						}
+					} else {
+						r.Fail("C11-R2", c, p.Pos(in.Pos()), "appended entry is not (addr & mask[n-1], n): key is not masked with the mask of the stored length")
+					}
+					return
+				}
 				// whole-slot store into ipList[...]
 				ia, ok := x.Addr.(*ssa.IndexAddr)
 				if !ok || !syms.isListBase(ia.X) {
@@ -680,7 +724,11 @@ func runC11(p *core.Prog, r *core.Report) {
 		}
 	}
 	// list insert is followed by exactly one index++ ; index is written nowhere else in Add
+	// (a list kept as a slice has no separate index: the append above is slot store and increment in one)
 	for _, fn := range fi.AllFuncs {
+		if syms.index == nil {
+			break
+		}
 		for _, ref := range sx.FieldRefs([]*ssa.Function{fn}, syms.index) {
 			fa, ok := ref.Instr.(*ssa.FieldAddr)
 			if !ok || sx.IsFreshObject(ref.Base) {
@@ -718,7 +766,7 @@ func runC11(p *core.Prog, r *core.Report) {
 	}
 	for _, i := range addInserts {
 		st, ok := i.(*ssa.Store)
-		if !ok {
+		if !ok || syms.index == nil {
 			continue
 		}
 		// every return after the slot store passes an index++
